@@ -28,7 +28,7 @@ func shapeJobs() []string {
 			for _, sib := range []string{"int", "str", "slice", "struct", "ptr", "custom", "catchint", "stest"} {
 				out = append(out, m+"/T2/"+sib+ds)
 			}
-			out = append(out, m+"/T3/int"+ds, m+"/T4/nested"+ds)
+			out = append(out, m+"/T3/int"+ds, m+"/T4/nested"+ds, m+"/T5/slicestruct"+ds, m+"/T6/ptrstruct"+ds)
 		}
 	}
 	return out
@@ -102,6 +102,23 @@ func buildShape(job string) *shape {
 	case "T3":
 		el := newIntDeco("e", fdeco, 1)
 		sh.sl = newSlice("sl", v.Choice("sdeco", 4)&(dReq|dDef), 1, el, classesFor(mode, []int{cMissing, cVal, cAlt}), classesFor(mode, []int{cVal, cBad, cNil}), 2)
+	case "T5":
+		// struct{ lN: Slice(Struct{x: focus, y: String}) (<=2 elements), j: Int.Required }
+		mkEl := func(i int) *StructNode {
+			nm := "e" + string(rune('0'+i))
+			return newStruct(nm, []string{"x", "y"}, []Node{newInt(nm+".x", fdeco, 1, classesFor(mode, focusClasses)), newStr(nm+".y", 0, 0, []int{cVal})}, classesFor(mode, []int{cVal, cBad}))
+		}
+		proto := newStruct("proto", []string{"x", "y"}, []Node{newIntDeco("proto.x", fdeco, 1), &StrNode{name: "proto.y", NT: 0, pre: strPre}}, []int{cVal})
+		ss := newSliceStruct("sl", v.Choice("sreq", 2) == 1, 1, classesFor(mode, []int{cMissing, cVal}), 1+v.Tier(), mkEl).withProto(proto)
+		shareDeco(proto, ss.Els)
+		sib := newInt("b", dReq, 1, classesFor(mode, []int{cMissing, cVal}))
+		sh.top = newStruct("top", []string{"lN", "j"}, []Node{ss, sib}, []int{cVal})
+	case "T6":
+		// struct{ pN: Ptr(Struct{x: focus, y: String.Required}), j: Int.Required }
+		el := newStruct("in", []string{"x", "y"}, []Node{newInt("in.x", fdeco, 1, classesFor(mode, focusClasses)), newStr("in.y", dReq, 1, classesFor(mode, []int{cMissing, cVal}))}, classesFor(mode, []int{cVal, cMissing, cNil, cBad}))
+		ps := newPtrStruct("p", v.Choice("notnil", 2) == 1, el)
+		sib := newInt("b", dReq, 1, classesFor(mode, []int{cMissing, cVal}))
+		sh.top = newStruct("top", []string{"pN", "j"}, []Node{ps, sib}, []int{cVal})
 	case "T4":
 		focus := newInt("a", fdeco, 1, classesFor(mode, focusClasses))
 		in := newStruct("in", []string{"x", "y"}, []Node{focus, newStr("in.y", dReq, 1, classesFor(mode, []int{cMissing, cVal}))}, classesFor(mode, []int{cVal, cNil}))
@@ -221,4 +238,20 @@ func sameIssues(o *outcome, want []Iss) bool {
 		return sameIssuesMap(o.m, want)
 	}
 	return sameIssuesList(o.list, want)
+}
+
+// shareDeco: the elements of a slice share one element schema, so every element description
+// takes the decoration and test parameters of the prototype (inputs stay per element)
+func shareDeco(proto *StructNode, els []*StructNode) {
+	px := proto.Kids[0].(*IntNode)
+	py := proto.Kids[1].(*StrNode)
+	if py.NT >= 1 && py.M == 0 {
+		py.M = v.Int("proto.y.min")
+	}
+	for _, e := range els {
+		x := e.Kids[0].(*IntNode)
+		x.Req, x.HasDef, x.HasCatch, x.Def, x.Catch, x.G, x.L, x.NT = px.Req, px.HasDef, px.HasCatch, px.Def, px.Catch, px.G, px.L, px.NT
+		y := e.Kids[1].(*StrNode)
+		y.Req, y.HasDef, y.HasCatch, y.NT, y.M, y.X = py.Req, py.HasDef, py.HasCatch, py.NT, py.M, py.X
+	}
 }
